@@ -118,6 +118,22 @@ def isNameAttribute (oid : List Nat) : BOut :=
       | some leaf => .val (Generated.nameAttributeLeaves.contains leaf)   -- the table is regenerated from util/names.go
   else .panic
 
+/-! ### IsFQDN's prefix stripping (v3/util/fqdn.go) -/
+
+/-- `RemovePrependedQuestionMarks`: `for strings.HasPrefix(domain, "?.") { domain = domain[2:] }` — structural
+    recursion: every round removes two bytes, so the loop ends -/
+def removeQuestionMarks : List Nat → List Nat
+  | 63 :: 46 :: rest => removeQuestionMarks rest
+  | s => s
+
+/-- `RemovePrependedWildcard`: `strings.TrimPrefix(domain, "*.")` -/
+def removeWildcard : List Nat → List Nat
+  | 42 :: 46 :: rest => rest
+  | s => s
+
+/-- what `IsFQDN` hands to zcrypto's `IsURL` -/
+def fqdnArg (s : List Nat) : List Nat := removeQuestionMarks (removeWildcard s)
+
 /-! ### reversed-label index arithmetic -/
 
 /-- indices touched by `for i := len-1; i >= 0; i -= 4 { labels[i], labels[i-1], labels[i-2], labels[i-3] }` -/
